@@ -171,6 +171,7 @@ func (db *basePermanent) updateLast(
 }
 
 func (db *basePermanent) mergeTempCaches(
+	height base.Height,
 	stcache util.GCache[string, [2]interface{}],
 	instateoperationcache util.LockedMap[string, bool],
 ) {
@@ -178,6 +179,9 @@ func (db *basePermanent) mergeTempCaches(
 		stcache.Traverse(func(_ string, i [2]interface{}) bool {
 			switch {
 			case !i[1].(bool): //nolint:forcetypeassert //...
+			case i[0].(base.State).Height() != height: //nolint:forcetypeassert //...
+				// NOTE cache can be shared with the other blocks, which are not
+				// merged yet.
 			default:
 				db.setStateToCache(i[0].(base.State)) //nolint:forcetypeassert //...
 			}
